@@ -29,8 +29,10 @@ CHECKS = {
     "C02": dict(
         text="Theorem C02_symbolic (ODE + initial condition hold identically in t, uniqueness) for the exact data; symbolic-t "
              "results of the real InventoryHP compared coefficient-by-coefficient as exact rationals with the model, exponents to "
-             "315 digits; numeric results within 1e-13 relative of the verified oracle at adaptive precision. The 'however small' "
-             "clause is false on the shipped code (open known finding F6) and reported as KNOWN-FINDING.",
+             "315 digits; C02_hp_rel_error: under the stated model of the 320-digit arithmetic the relative error is <= 1e-13 for "
+             "every value >= 1e-290 x the initial atoms; numeric results within 1e-13 relative of the proved oracle at adaptive "
+             "precision. The 'however small' clause is false on the shipped code below that magnitude (open known finding F6) "
+             "and reported as KNOWN-FINDING.",
         ref="§4 C02", technique=PROOF_DECAY,
         note=NOTE + "SymPy/mpmath rounding assumed correct; nsimplify's reading taken as the exact input."),
     "C03": dict(
